@@ -9,13 +9,14 @@ Definition is_single {A} (l : list A) : bool := match l with [_] => true | _ => 
 Definition split_parts (raw : str) : list str :=
   let p1 := py_split s_semi raw in
   if is_single p1 then let p2 := py_split s_comma1 raw in if is_single p2 then py_split_ws raw else p2 else p1.
-(* one `k=v` part: the unpacking `k, v = param.split("=")[:2]` needs two pieces; inl tt = it would fail *)
+(* one `k=v` part: the unpacking `k, v = param.split("=", 1)` needs two pieces, which the "=" in the part guarantees: the name is
+   everything before the FIRST "=", the value everything after it (defect F96: it used to be cut at the second); inr tt = it would fail *)
 Definition parse_part (p : str) : option (str * str) + unit :=
   if contains s_eq p then
-    match py_split s_eq p with
-    | k :: v :: _ => let key := py_strip (lower_ascii k) in
+    match span (fun c => negb (ceq c 61%N)) p with
+    | (k, _ :: v) => let key := py_strip (lower_ascii k) in
                      inl (Some (key, if mem key [s_label; s_value] then py_strip v else py_strip (lower_ascii v)))
-    | _ => inr tt
+    | (_, []) => inr tt
     end
   else inl None.
 Inductive presult := POk (d : dict) | PRejected | PCrash.
